@@ -27,7 +27,7 @@ def plan(ctx):
                           targets=["liberasurecode_" + names[mode]] if mode < 6 else ["liberasurecode_get_fragment_metadata", "liberasurecode_verify_stripe_metadata", "is_invalid_fragment",
                                    "liberasurecode_encode_cleanup", "liberasurecode_decode_cleanup", "liberasurecode_instance_destroy", "liberasurecode_backend_available"]))
     # enumerated boundary shapes for the matrix-based back ends: refused or survives a full cycle
-    refused = [(RS, 0, 1), (RS, -1, 2), (RS, 1, -1), (RS, 32, 1), (RS, 1, 32), (RS, 0, 0), (RS, 17, 16), (ISAV, 0, 2), (ISAV, 30, 3), (ISAC, -1, 1), (ISAC, 0, 0), (XOR, 0, 3), (XOR, 4, 3), (XOR, 16, 6), (XOR, 11, 5), (XOR, 3, 3, 4), (XOR, 21, 6, 4), (XOR, 5, 5, 2), (XOR, 6, 4), (NULL, 0, 1), (NULL, -1, 1), (NULL, 20, 13)]
+    refused = [(RS, 0, 1), (RS, -1, 2), (RS, 1, -1), (RS, 32, 1), (RS, 1, 32), (RS, 0, 0), (RS, 17, 16), (ISAV, 0, 2), (ISAV, 30, 3), (ISAC, -1, 1), (ISAC, 0, 0), (XOR, 0, 3), (XOR, 4, 3), (XOR, 2, 3), (XOR, 16, 6), (XOR, 5, 6), (XOR, 11, 5), (XOR, 4, 5), (XOR, 3, 3, 4), (XOR, 21, 6, 4), (XOR, 5, 6, 4), (XOR, 11, 5, 4), (XOR, 4, 5, 4), (XOR, 5, 5, 2), (XOR, 6, 4), (NULL, 0, 1), (NULL, -1, 1), (NULL, 20, 13)]
     for ent in refused:
         be, k, m = ent[:3]
         hd = ent[3] if len(ent) > 3 else (3 if be == XOR else max(m, 0))
